@@ -44,6 +44,7 @@ def run(ctx: Ctx) -> None:
     memo.rule_subject_drift(ctx, _m3)
     memo.rule_isinstance_on_class(ctx, _m3)
     memo.rule_zip_truncation(ctx, _m3)
+    memo.rule_search_fallthrough(ctx, _m3)
     repo = ctx.repo
     m = repo.module(TRS)
     sv = repo.anchor(TRS, "TimeReversedSolver.solve")
@@ -304,6 +305,7 @@ def _anc(n):
 
 
 KNOCKOUTS = [
+    Knockout("rref-fast-path-clears-one-kind", STABF_, sub_once("    elif not pauli_y_list:  # pauli x and z exist in the column below pivot\n", "    elif not pauli_y_list:  # pauli x and z exist in the column below pivot\n        if pauli_x_list[0] == pivot[0] and pauli_z_list[0] == pivot[0] + 1:\n            for row_j in pauli_z_list[1:]:\n                tableau = tab_row_sum(tableau, pivot[0] + 1, row_j)\n            pivot = [pivot[0] + 2, pivot[1] + 1]\n            return tableau, pivot\n"), "rref.inline-step", "inline step"),
     Knockout("bit-packing-int64", "graphiq/utils/relabel_module.py", sub_once("        n_emit = height_max(graph=g)\n", "        n_emit = height_max(graph=g)\n        packed = adj.astype(int) @ (1 << np.arange(adj.shape[0]))\n"), "num.fixed-width", "emitter_sorted"),
     Knockout("height-stops-at-first-zero", HEIGHT, sub_once("        height_list.append(height)\n    return height_list", "        height_list.append(height)\n        if height == 0:\n            break\n    height_list.extend([0] * (n_qubits - len(height_list)))\n    return height_list"), "height.formula", "positions not all evaluated"),
     Knockout("rref-finder-skips-pivot-row", STABF_, sub_once("    for row_i in range(pivot[0], n_qubits):\n        if x_matrix[row_i, pivot[1]] == 1 and z_matrix[row_i, pivot[1]] == 0:", "    for row_i in range(pivot[0] + 1, n_qubits):\n        if x_matrix[row_i, pivot[1]] == 1 and z_matrix[row_i, pivot[1]] == 0:"), "rref.classify", "row range"),
